@@ -44,9 +44,10 @@ type Result struct {
 	Dist                 map[string]int `json:"distribution"`
 	Notes                []string       `json:"notes"`
 
-	mu       sync.Mutex
-	distinct map[string]bool
-	vseen    map[string]bool
+	mu         sync.Mutex
+	distinct   map[string]bool
+	vseen      map[string]bool
+	classCount map[string]int
 }
 
 func newResult(prop, tier string, seed int64) *Result {
@@ -90,6 +91,17 @@ func (r *Result) Violate(v Violation) {
 		return
 	}
 	r.vseen["v|"+v.Sig] = true
+	// at most 12 reports per failing clause (the part of the signature before the first '|'): one defect usually fails on
+	// thousands of histories / documents, the first few are enough to replay it
+	cls := "n|" + strings.SplitN(v.Sig, "|", 2)[0]
+	r.Dist["violations:"+strings.SplitN(v.Sig, "|", 2)[0]]++
+	if r.classCount == nil {
+		r.classCount = map[string]int{}
+	}
+	r.classCount[cls]++
+	if r.classCount[cls] > 12 {
+		return
+	}
 	r.Violations = append(r.Violations, v)
 }
 
